@@ -182,7 +182,8 @@ impl<T: BitRead> PackedRead for T {
     #[inline]
     fn read_semi_constrained_whole_number(&mut self, lower_bound: i64) -> Result<i64, Error> {
         let n = self.read_non_negative_binary_integer(None, None)?;
-        Ok((n as i64) + lower_bound)
+        i64::try_from(i128::from(n) + i128::from(lower_bound))
+            .map_err(|_| ErrorKind::ValueExceedsMaxInt.into())
     }
 
     /// ITU-T X.691 | ISO/IEC 8825-2:2015, chapter 11.8
@@ -509,7 +510,11 @@ impl<T: BitWrite> PackedWrite for T {
         if value < lower_bound {
             Err(ErrorKind::ValueNotInRange(value, lower_bound, i64::MAX).into())
         } else {
-            self.write_non_negative_binary_integer(None, None, (value - lower_bound) as u64)
+            self.write_non_negative_binary_integer(
+                None,
+                None,
+                value.wrapping_sub(lower_bound) as u64, // exact, because value >= lower_bound
+            )
         }
     }
 
